@@ -166,3 +166,12 @@ fire("C05", "copy-carries-memoised-hash-when-only-operations-kept",
 silent("C05", "copy-carries-memoised-hash-only-for-plain-copies",
        [(_QS, "        # copy cached properties when relevant\n",
               "        if not update and \"hash\" in self.__dict__:\n            new_qscript.__dict__[\"hash\"] = self.__dict__[\"hash\"]\n        # copy cached properties when relevant\n")])
+
+# --- R-C05-memo
+_CO = "pennylane/ops/op_math/composite.py"
+fire("C05", "composite-map_wires-clones-the-memoised-hash",
+     (_CO, "            if attr not in {\"data\", \"operands\", \"_wires\", \"_overlapping_ops\", \"_hash\"}:\n                setattr(new_op, attr, value)\n        new_op._hash = None  # the cached hash describes the operator on its old wires\n",
+           "            if attr not in {\"data\", \"operands\", \"_wires\", \"_overlapping_ops\"}:\n                setattr(new_op, attr, value)\n"),
+     "R-C05-memo", "CompositeOp.map_wires")
+silent("C05", "composite-map_wires-resets-memo-without-exclusion",
+       [(_CO, "            if attr not in {\"data\", \"operands\", \"_wires\", \"_overlapping_ops\", \"_hash\"}:", "            if attr not in {\"data\", \"operands\", \"_wires\", \"_overlapping_ops\"}:")])
